@@ -409,6 +409,9 @@ func sweepVectors(names []string, isWrite func(string) bool, maxSize int64, part
 		if sc.Value < 128 || sc.Value > maxSize {
 			continue
 		}
+		if !full && sc.Value < 4096 && sc.Name != "MaxTableNameLen" {
+			continue // quick tier: the small constants only in the thorough sweep
+		}
 		big := sc.Value >= 100000
 		wi := -1
 		for _, n := range names {
@@ -561,7 +564,11 @@ func stateSweep(names []string, part, nparts int, full bool) []vector {
 			if l > 0 {
 				val[0] = fb
 			}
-			for _, c := range kvFamily {
+			fam := kvFamily
+			if !full {
+				fam = kvFamily[:12] // the commands that decode the stored bytes; the rest in the thorough tier
+			}
+			for _, c := range fam {
 				k := fresh("cf")
 				sq := []vector{
 					mk([][]byte{[]byte("set"), []byte(k), val}, "set", "state:kv"),
